@@ -122,14 +122,14 @@ func tail(s string, n int) string {
 
 func buildReplayTest(rc replayCase) string {
 	var sb strings.Builder
-	sb.WriteString("package pongo2\n\nimport (\n\t\"testing\"\n\t\"fmt\"\n\t\"io\"\n\t\"strings\"\n")
+	sb.WriteString("package pongo2\n\nimport (\n\t\"testing\"\n\t\"fmt\"\n\t\"io\"\n\t\"strings\"\n\t\"time\"\n")
 	for _, im := range rc.Imports {
-		if im == "io" || im == "strings" {
+		if im == "io" || im == "strings" || im == "time" {
 			continue
 		}
 		sb.WriteString("\t\"" + im + "\"\n")
 	}
-	sb.WriteString(")\n\nvar _ = fmt.Sprint\nvar _ io.Reader\nvar _ = strings.Contains\n")
+	sb.WriteString(")\n\nvar _ = fmt.Sprint\nvar _ io.Reader\nvar _ = strings.Contains\nvar _ time.Time\n")
 	sb.WriteString(replayPrelude)
 	sb.WriteString("\nfunc TestPvcReplay(t *testing.T) {\n")
 	sb.WriteString(rc.Test)
